@@ -1,4 +1,4 @@
-FIX_COMMITS = ['056fe00 (C14)', '194b898 (C18)', 'e5d1f9f (C05 sweep tie-break)', 'c0a262c (C10)', '7c606c6 (C20)', 'cbc693c (C05/C06 BP-OSD)', 'a832f8b (C06 XCube)', 'a7ca295 (C05 MBP)', '0d33a68 (C12)', '7651b61 (C13)', '9f095a3 (C19)', '7211c70 (C15)', '37a5699 (C05 XCube non-cubic)']
+FIX_COMMITS = ['056fe00 (C14)', '194b898 (C18)', 'e5d1f9f (C05 sweep tie-break)', 'c0a262c (C10)', '7c606c6 (C20)', 'cbc693c (C05/C06 BP-OSD)', 'a832f8b (C06 XCube)', 'a7ca295 (C05 MBP)', '0d33a68 (C12)', '7651b61 (C13)', '9f095a3 (C19)', '7211c70 (C15)', '37a5699 (C05 XCube non-cubic)', '595bcf6 (C02/C03 sparse rows with unsorted indices)']
 CHECKS = {
  'C14': dict(category='proof',
    text='For all (n_nodes, n_cores, n_inputs, trials, job_idx) - no bound - the body of run_parallel is executed symbolically and 10 '
